@@ -23,3 +23,9 @@ mod result_test;
 
 pub use handler::{ShowCommandHandler, handle};
 pub use orchestrator::ShowExecutionPipeline;
+
+/// Verification hook (feature `verif`): the real SHOW response writer.
+#[cfg(feature = "verif")]
+pub mod verif_api {
+    pub use super::streaming::ShowResponseWriter;
+}
